@@ -7,10 +7,10 @@ ALL_GENERATORS = []
 def main():
     ctx = core.Ctx("setup", "quick", 0)
     import importlib, pkgutil
-    from . import props
+    from . import parts
     gens = []
-    for m in pkgutil.iter_modules(props.__path__):
-        mod = importlib.import_module(f"vlib.props.{m.name}")
+    for m in pkgutil.iter_modules(parts.__path__):
+        mod = importlib.import_module(f"vlib.parts.{m.name}")
         for g in getattr(mod, "GENERATORS", []):
             if g not in gens:
                 gens.append(g)
